@@ -713,7 +713,7 @@ if __name__ == '__main__':
         harness_name='c15', harness_sources=[os.path.join(C.VERIF, 'harness', 'c15.cpp')],
         gen_ops=gen_ops, monitor=monitor, nontrivial=nontrivial, corpus=CORPUS,
         driver_input=driver_input, impl_view=impl_view, extra_stage=extra_stage,
-        n_quick=4000, n_thorough=60000,
+        n_quick=4000, n_thorough=240000,
         trusted_base=[
             'Lean 4.33 kernel + Mathlib (axioms: propext, Classical.choice, Quot.sound)',
             'gen/cxxparse.py + gen/lean_emit.py + gen/gen_c15.py (translator: componentwise Eigen '
